@@ -65,18 +65,29 @@ pub fn string_to_tokens(file_id: usize, content: &str) -> Vec<PlacedToken> {
         .spanned()
         // Contains side-effects.
         .map(|(token, byte_range)| {
-            let is_newline = token == Token::Newline;
-            let col_start = char_at_byte[byte_range.start].unwrap() - last_newline;
+            let text = &content[byte_range.clone()];
+            let first_char = char_at_byte[byte_range.start].unwrap();
+            let num_chars = text.chars().count();
+            let col_start = first_char - last_newline;
+            let line_start = line;
+            // Tokens other than the newline token may contain newlines (string
+            // literals): the span ends on the line of the token's last char.
+            for (i, c) in text.chars().enumerate() {
+                if c == '\n' && i + 1 < num_chars {
+                    last_newline = first_char + i;
+                    line += 1;
+                }
+            }
             let col_end = char_at_byte[byte_range.end].unwrap() - last_newline;
             let span = Span {
                 file_id,
                 col_start,
                 col_end,
-                line_start: line,
+                line_start,
                 line_end: line,
             };
-            if is_newline {
-                last_newline = char_at_byte[byte_range.start].unwrap();
+            if text.ends_with('\n') {
+                last_newline = first_char + num_chars - 1;
                 line += 1;
             }
             PlacedToken { token, span }
